@@ -49,6 +49,8 @@ using namespace svmon;
 typedef SV_T ElemT;
 #if SV_ALLOC == 0
 typedef std::allocator<ElemT> AllocT;
+#elif SV_ALLOC == 2
+typedef FancyLedgerAlloc<ElemT, ACfg<SV_POCCA, SV_POCMA, SV_POCS, SV_AE, std::size_t, 0, 0, 0, SV_SOCCC> > AllocT;
 #else
 typedef LedgerAlloc<ElemT, ACfg<SV_POCCA, SV_POCMA, SV_POCS, SV_AE, std::size_t, 0, SV_CONSTRUCT, SV_THROWDEF, SV_SOCCC> > AllocT;
 #endif
